@@ -94,6 +94,9 @@ func main() {
 		add(childSpec{Mode: "poison", LogLevel: "debug"}, cfg.BinPlain, 10*time.Minute)
 		add(childSpec{Mode: "keyperm", LogLevel: "error"}, cfg.BinPlain, 10*time.Minute)
 		for s := 0; s < cfg.N(2, 6); s++ {
+			add(childSpec{Mode: "badentry", Shard: s, N: cfg.N(3, 12), LogLevel: levels[(s+1)%len(levels)]}, cfg.BinPlain, 10*time.Minute)
+		}
+		for s := 0; s < cfg.N(2, 6); s++ {
 			add(childSpec{Mode: "expiredtwice", Shard: s, N: cfg.N(30, 200), LogLevel: levels[(s+7)%len(levels)]}, cfg.BinPlain, 10*time.Minute)
 		}
 		for s := 0; s < cfg.N(3, 10); s++ {
@@ -209,6 +212,7 @@ func finish(cfg vlib.Cfg, rep *vlib.Report) {
 	rep.Floor(rep.Counter("expiry_requests_after") >= 500, "expiry_requests_after=%d", rep.Counter("expiry_requests_after"))
 	rep.Floor(rep.Counter("poison_mutations") >= 200 && rep.Counter("poison_followup_requests") >= 10000, "poison_mutations=%d followups=%d", rep.Counter("poison_mutations"), rep.Counter("poison_followup_requests"))
 	rep.Floor(rep.Counter("sessclean_reset_checks") >= 500 && rep.Counter("cleaner_passes") >= 100, "sessclean_reset_checks=%d cleaner_passes=%d", rep.Counter("sessclean_reset_checks"), rep.Counter("cleaner_passes"))
+	rep.Floor(rep.Counter("badentry_cells") >= 1000, "badentry_cells=%d", rep.Counter("badentry_cells"))
 	rep.Floor(rep.Counter("keyperm_cells") >= 5000, "keyperm_cells=%d", rep.Counter("keyperm_cells"))
 	rep.Floor(rep.Counter("expired_cookie_presentations") >= 500, "expired_cookie_presentations=%d", rep.Counter("expired_cookie_presentations"))
 	rep.Floor(rep.Counter("acrm_cells") >= 100000, "acrm_cells=%d", rep.Counter("acrm_cells"))
@@ -284,6 +288,8 @@ func childMain(dir string) {
 		rerr = runExpiry(w, j, cs)
 	case "keyperm":
 		rerr = runKeyPerm(w, j, cs)
+	case "badentry":
+		rerr = runBadEntry(w, j, cs)
 	case "expiredtwice":
 		rerr = runExpiredTwice(w, j, cs)
 	case "poison":
